@@ -430,7 +430,21 @@ def case_generated(case, col=None):
     logging.disable(logging.CRITICAL)
     try:
         lines, _ = regmodel.render(model)
-        ureg = pint.UnitRegistry(lines, non_int_type=env.NIT[nit])
+        path = case.get("path", "lines")
+        if path == "lines" or case.get("autoreduce"):
+            ureg = pint.UnitRegistry(lines, non_int_type=env.NIT[nit])
+        else:
+            # the same definitions through another loading path (file, @import, on-disk cache incl. one that another definition set has used)
+            import shutil
+            import tempfile
+
+            from .c10 import load
+
+            work = tempfile.mkdtemp(prefix="vf_gen_")
+            try:
+                ureg = load(model, path, nit, work)
+            finally:
+                shutil.rmtree(work, ignore_errors=True)
         res = regmodel.resolve(model)
         if col is not None:
             col.case(("gen", "\n".join(lines), nit), True, sample={"lines": lines, "registry": nit}, cls="generated_registry")
@@ -457,7 +471,8 @@ def case_generated(case, col=None):
 def run_generated(task, tier, seed, col):
     from ..gen import regmodel
 
-    strat = st.builds(lambda m, nit: {"model": m, "nit": nit}, regmodel.models(with_offset=False, with_groups=False, with_systems=False), st.sampled_from(["Fraction", "Fraction", "float", "Decimal"]))
+    strat = st.builds(lambda m, nit, pa: {"model": m, "nit": nit, "path": pa}, regmodel.models(with_offset=False, with_groups=False, with_systems=False), st.sampled_from(["Fraction", "Fraction", "float", "Decimal"]),
+                      st.sampled_from(["lines", "file", "import", "cache", "cache_lines", "cache_import"]))
     hyp_search(col, strat, lambda c: case_generated(c, col), max_examples=60 if tier == "quick" else 1500, seed=seed * 179 + task["shard"], shrink_budget_s=60)
 
 
